@@ -575,6 +575,17 @@ class C20(HttpProp):
                    "http@0 GET snap - hyph=1 absent e", "http@0 POST av hyph=nil hyph=1 history b:4", "http@0 POST av hyph=nil hyph=2 history chunks:3,4",
                    "http@0 GET unknown1 - absent absent e", "unstall", "http@0 POST av hyph=latest:1 hyph=1 history b:5", "http@0 GET gcv hyph=nil hyph=2 absent e", "kill"]
             out.append(Case(f"c20-load-{k}", ops, {"only": "sqlite", "bin": True}, mode="bin"))
+        # the real executable with every option it advertises beyond those the model knows set: switches on, numbers to 1,
+        # path prefixes to /tss (by flag, by variable; a guess the executable refuses is dropped) — EVERY response, whatever
+        # its status, under any configuration
+        for k in range(sizes(tier, 2, 4)):
+            ops = [f"boot listen=flag:1 dir=flag allow={'none' if k % 2 == 0 else 'flag:1'} versions=default days=default extra=autoval:{'flag' if k % 2 == 0 else 'env'}",
+                   "http@0 POST av hyph=nil hyph=1 history b:1", "http@0 POST av hyph=latest:1 hyph=1 history b:2", "http@0 GET gcv hyph=anc:1:1 hyph=1 absent e",
+                   "http@0 POST as hyph=latest:1 hyph=1 snapshot b:9", "http@0 GET snap - hyph=1 absent e", "http@0 GET index - absent absent e", "http@0 GET unknown1 - absent absent e",
+                   "http@0 POST unknown2 hyph=nil hyph=1 history b:1", "http@0 PUT gcv hyph=nil hyph=1 absent e", "http@0 GET snap - hyph=2 absent e", "http@0 POST av hyph=nil hyph=1 history b:3",
+                   "http@0 POST av hyph=latest:1 hyph=1 history slow:2500:3,3", "http@0 POST as hyph=latest:1 hyph=1 snapshot slow:2500:2,2", "http@0 GET gcv short=nil hyph=1 absent e",
+                   "http@0 POST av hyph=latest:1 hyph=1 other b:1", "http@0 POST av hyph=latest:1 hyph=1 history e", "kill"]
+            out.append(Case(f"c20-options-{k}", ops, {"only": "sqlite", "bin": True}, mode="bin"))
         if tier == "thorough":
             # uploads outstanding for MINUTES (a replica that went to sleep mid-upload): whatever the server answers
             # on such a connection in the end is a response like any other
